@@ -147,6 +147,7 @@ func VerifHarness_server_handshake() {
 			verifAssert("C07.server.resumedChainReverified", !(policy >= VerifyClientCertIfGiven && ncli > 0) || vs.chainOK)
 		}
 		verifAssert("C03.server.transcriptIsWireOrderResumed", bytes.Equal(vg.cliSeed, vg.wire[:vg.finPos]))
+		verifAssert("C04.server.finishedOverWholeTranscript", bytes.Equal(vg.cliSeed, vg.wire[:vg.finPos]))
 	} else {
 		verifReach("completedFull")
 		want := []int{kCH}
@@ -173,6 +174,7 @@ func VerifHarness_server_handshake() {
 		verifAssert("C10.server.newSessionIdFromRand", len(vs.sentSID) == 32)
 		verifAssert("C10.server.newSessionStoredOnce", vg.puts == 1 && !vg.putNil[0] && vg.putVals[0] != nil && len(vg.putVals[0].masterSecret) == 48)
 		verifAssert("C03.server.transcriptIsWireOrder", bytes.Equal(vg.cliSeed, vg.wire[:vg.finPos]))
+		verifAssert("C04.server.finishedOverWholeTranscript", bytes.Equal(vg.cliSeed, vg.wire[:vg.finPos]))
 	}
 	verifAssert("C03.server.finishedMatchesAll12", len(vg.finIn) == 12 && len(vg.cliSum) == 12 && bytes.Equal(vg.finIn, vg.cliSum))
 	verifAssert("C03.server.ccsBeforeFinished", vg.n >= 2 && vg.kinds[vg.n-2] == kCCS && vg.kinds[vg.n-1] == kFin)
